@@ -14,10 +14,12 @@ Record rstate := {
   items : list Z;               (* received, unread items (ids), oldest first *)
   reqs : nat;                   (* reads requested and not yet started *)
   blocked : bool;               (* the reader is inside a blocked read *)
+  closed : bool;                (* the connection has been closed: what was received stays readable, then reads report
+                                   the end instead of waiting (packet buffer) *)
   results : list zs             (* [return time; class 0 data / 1 timeout; id or 0], oldest first *)
 }.
 
-Definition r0 : rstate := {| dl := 0; items := []; reqs := 0; blocked := false; results := [] |}.
+Definition r0 : rstate := {| dl := 0; items := []; reqs := 0; blocked := false; closed := false; results := [] |}.
 
 Definition expired (s : rstate) (t : Z) : bool := negb (dl s =? 0) && (dl s <=? t).
 
@@ -32,12 +34,16 @@ Fixpoint start_reads (fuel : nat) (s : rstate) (t : Z) : rstate :=
           if blocked s then s
           else if expired s t then
             start_reads f {| dl := dl s; items := items s; reqs := r; blocked := false;
-                             results := results s ++ [[t; 1; 0]] |} t
+                             closed := closed s; results := results s ++ [[t; 1; 0]] |} t
           else match items s with
                | x :: rest =>
                    start_reads f {| dl := dl s; items := rest; reqs := r; blocked := false;
-                                    results := results s ++ [[t; 0; x]] |} t
-               | [] => {| dl := dl s; items := []; reqs := r; blocked := true; results := results s |}
+                                    closed := closed s; results := results s ++ [[t; 0; x]] |} t
+               | [] =>
+                   if closed s then
+                     start_reads f {| dl := dl s; items := []; reqs := r; blocked := false; closed := true;
+                                      results := results s ++ [[t; 2; 0]] |} t
+                   else {| dl := dl s; items := []; reqs := r; blocked := true; closed := closed s; results := results s |}
                end
       end
   end.
@@ -47,35 +53,42 @@ Definition expire_before (s : rstate) (t : Z) : rstate :=
   if blocked s && negb (dl s =? 0) && (dl s <? t) then
     start_reads (S (reqs s))
       {| dl := dl s; items := items s; reqs := reqs s; blocked := false;
-         results := results s ++ [[dl s; 1; 0]] |} (dl s)
+         closed := closed s; results := results s ++ [[dl s; 1; 0]] |} (dl s)
   else s.
 
-Inductive rev := RSetDeadline (d : Z) | RArrive (id : Z) | RStartRead.
+Inductive rev := RSetDeadline (d : Z) | RArrive (id : Z) | RStartRead | RClose.
 
 Definition r_event (s : rstate) (t : Z) (e : rev) : rstate :=
   let s := expire_before s t in
   match e with
   | RSetDeadline d =>
-      let s1 := {| dl := d; items := items s; reqs := reqs s; blocked := blocked s; results := results s |} in
+      let s1 := {| dl := d; items := items s; reqs := reqs s; blocked := blocked s; closed := closed s; results := results s |} in
       if blocked s1 && expired s1 t then
         start_reads (S (reqs s1))
-          {| dl := d; items := items s1; reqs := reqs s1; blocked := false; results := results s1 ++ [[t; 1; 0]] |} t
+          {| dl := d; items := items s1; reqs := reqs s1; blocked := false; closed := closed s1; results := results s1 ++ [[t; 1; 0]] |} t
       else s1
   | RArrive id =>
-      if blocked s then
+      if closed s then s   (* a closed buffer refuses further data *)
+      else if blocked s then
         (* the blocked read takes it at once (nothing else can be queued while a read is blocked) *)
         start_reads (S (reqs s))
-          {| dl := dl s; items := items s; reqs := reqs s; blocked := false; results := results s ++ [[t; 0; id]] |} t
-      else {| dl := dl s; items := items s ++ [id]; reqs := reqs s; blocked := false; results := results s |}
+          {| dl := dl s; items := items s; reqs := reqs s; blocked := false; closed := closed s; results := results s ++ [[t; 0; id]] |} t
+      else {| dl := dl s; items := items s ++ [id]; reqs := reqs s; blocked := false; closed := closed s; results := results s |}
+  | RClose =>
+      (* a blocked read (nothing is queued then) reports the end at once; the deadline stays what it is *)
+      if blocked s then
+        start_reads (S (reqs s))
+          {| dl := dl s; items := items s; reqs := reqs s; blocked := false; closed := true; results := results s ++ [[t; 2; 0]] |} t
+      else {| dl := dl s; items := items s; reqs := reqs s; blocked := false; closed := true; results := results s |}
   | RStartRead =>
       start_reads (S (S (reqs s)))
-        {| dl := dl s; items := items s; reqs := S (reqs s); blocked := blocked s; results := results s |} t
+        {| dl := dl s; items := items s; reqs := S (reqs s); blocked := blocked s; closed := closed s; results := results s |} t
   end.
 
 Fixpoint r_run (s : rstate) (h : list (Z * rev)) : rstate :=
   match h with [] => s | (t, e) :: h' => r_run (r_event s t e) h' end.
 
-(* wire: op [t; 1; d] SetReadDeadline | [t; 2; d] SetDeadline | [t; 3; id] Arrive | [t; 4] StartRead;
+(* wire: op [t; 1; d] SetReadDeadline | [t; 2; d] SetDeadline | [t; 3; id] Arrive | [t; 4] StartRead | [t; 6] Close;
    the last op [t; 0] only marks the end of the script (deadlines before t still fire) *)
 Definition dec_rev (o : zs) : option (Z * rev) :=
   match o with
@@ -84,6 +97,7 @@ Definition dec_rev (o : zs) : option (Z * rev) :=
   | t :: 3 :: id :: _ => Some (t, RArrive id)
   | t :: 4 :: _ => Some (t, RStartRead)
   | t :: 5 :: _ => Some (t, RStartRead)   (* a read into an empty slice, scripted only while the deadline has passed *)
+  | t :: 6 :: _ => Some (t, RClose)
   | _ => None
   end.
 
